@@ -173,10 +173,11 @@ def meta(tier):
         "functions": [CSS._rules_from_strategy, CSS._expand_class_with_strategy, CSS.add_rule, CSS._symmetry_expand, CSS._inferral_expand,
                       CSS.try_verify, RuleDBBase.add, RuleDBBase._clean_labels, RuleDBForest.add, RuleDBForest._add_empty_rule,
                       ClassDB.get_label, ClassDB.get_class, ClassDB.is_empty],
-        "bounds": "all 64 two-state tables x 3 databases x 11 option sets (incl. factories yielding a strategy, a ready rule and a rule for a "
+        "bounds": "all 64 two-state tables x 3 databases x the option sets listed below (incl. factories yielding a strategy, a ready rule and a rule for a "
                   "different parent in both orders, inferral chains, symmetries, verification with a pack, statistics), late clock readings; "
-                  "every insertion of every run is checked (thorough: 5 more option sets, 3-state tables)",
+                  "every insertion of every run is checked (thorough: more option sets, 3-state tables)",
     })
     m["stubs"] = m["stubs"] + ["recording wrappers around ruledb.add and ClassDB.get_label of the searcher under test"]
     m["outside"] = m["outside"] + ["strategies that violate their contract (the property assumes they do not)"]
+    m["bounds"] = str(m.get("bounds", "")) + " || end-to-end groups of this run: " + e2e.describe_groups(groups(tier))
     return m
